@@ -414,6 +414,77 @@ func emit(g group) (string, []string) {
 			if !done {
 				fail("call argument literal not found")
 			}
+		case "markers":
+			// the comment markers tested with strings.HasPrefix(t, "<lit>") in ParseComment, in source order,
+			// and how many bytes are stripped for each: either a constant `t[N:]` or `t[len(marker):]` style
+			fd := findFunc(af, f.Func)
+			if fd == nil {
+				fail("function not found")
+				continue
+			}
+			type mk struct {
+				lit   string
+				strip string
+			}
+			var ms []mk
+			ast.Inspect(fd.Body, func(n ast.Node) bool {
+				ifs, ok := n.(*ast.IfStmt)
+				if !ok {
+					return true
+				}
+				var lits []string
+				ast.Inspect(ifs.Cond, func(m ast.Node) bool {
+					if ce, ok := m.(*ast.CallExpr); ok && show(ce.Fun) == "strings.HasPrefix" && len(ce.Args) == 2 && show(ce.Args[0]) == "t" {
+						if bl, ok := ce.Args[1].(*ast.BasicLit); ok && bl.Kind == token.STRING {
+							v, _ := strconv.Unquote(bl.Value)
+							lits = append(lits, v)
+						}
+					}
+					return true
+				})
+				if len(lits) == 0 {
+					return true
+				}
+				// find the slice expression t[X:] in the body
+				strip := ""
+				ast.Inspect(ifs.Body, func(m ast.Node) bool {
+					if se, ok := m.(*ast.SliceExpr); ok && show(se.X) == "t" && se.Low != nil && strip == "" {
+						strip = show(se.Low)
+					}
+					return true
+				})
+				if strip == "" {
+					return true
+				}
+				for _, l := range lits {
+					ms = append(ms, mk{l, strip})
+				}
+				return true
+			})
+			if len(ms) == 0 {
+				fail("marker test not found")
+				continue
+			}
+			var names, cases []string
+			ok := true
+			for _, m := range ms {
+				names = append(names, leanStr(m.lit))
+				n := ""
+				if _, err := strconv.Atoi(m.strip); err == nil {
+					n = m.strip
+				} else if m.strip == "len(marker)" || m.strip == "len(prefix)" {
+					n = fmt.Sprint(len(m.lit))
+				} else {
+					ok = false
+				}
+				cases = append(cases, fmt.Sprintf("  | %s => %s", leanStr(m.lit), n))
+			}
+			if !ok {
+				fail("unsupported strip expression " + ms[0].strip)
+				continue
+			}
+			fmt.Fprintf(&b, "/-- %s: %s — comment markers tested by strings.HasPrefix, in order (strip expression `t[%s:]`) -/\ndef %s : List String := [%s]\n", f.File, f.Func, ms[0].strip, f.Name, strings.Join(names, ", "))
+			fmt.Fprintf(&b, "/-- bytes stripped when the marker matched -/\ndef markerStrip : String → Nat\n%s\n  | _ => 0\n", strings.Join(cases, "\n"))
 		case "resets":
 			fd := findFunc(af, f.Func)
 			if fd == nil {
